@@ -10,7 +10,7 @@ COQ_MODEL = "run_decode"
 COQ_OK = "(ok_spec spec_c04)"
 COQ_INPUT_TYPE = "env * list (Z * Z) * Z * ptype"
 SHARD = 150
-RULE = ("integers: widths 1..72 x {unsigned, signed, twosComplement} x {MSB, LSB on whole bytes} x bit offsets 0..7 x patterns "
+RULE = ("integers: widths 1..72 x {unsigned, signed, twosComplement, twosCompliment, signMagnitude, onesComplement} x {MSB, LSB on whole bytes} x bit offsets 0..7 x patterns "
         "{0, 1, all ones, sign bit only, 0x55.., random}; floats: IEEE 16/32/64 and MIL-1750A x both byte orders x offsets 0..7 x "
         "class boundaries (+-0, min/max subnormal, min/max normal, +-inf, quiet/signalling NaN) and random patterns; thorough: all "
         "2^16 half patterns; distinct = distinct (type, width, encoding, order, offset, pattern class)")
@@ -46,7 +46,7 @@ def gen(rng, tier):
     cases = []
     widths = list(range(1, 73))
     for w in widths:
-        for kind in ("unsigned", "signed", "twosComplement"):
+        for kind in ("unsigned", "signed", "twosComplement", "twosCompliment", "signMagnitude", "onesComplement"):
             offs = range(8) if (tier == "thorough" or w in (1, 7, 8, 9, 16, 31, 32, 33, 64, 65)) else [rng.randrange(8)]
             for off in offs:
                 pats = int_patterns(rng, w)
